@@ -190,15 +190,20 @@ def check(prog, rep, tier):
     def branch_codes(fn, var_suffix):
         out = set()
         for n in ast.walk(fn.node):
-            if isinstance(n, ast.Compare) and src_of(n.left).endswith(var_suffix) and isinstance(n.ops[0], ast.Eq):
-                v = prog.try_fold(n.comparators[0], fn.module, fn.cls)
-                if v is None and isinstance(n.comparators[0], ast.Attribute):
-                    try:
-                        v = prog.class_const(cap, n.comparators[0].attr)
-                    except NotConst:
-                        v = None
-                if v is not None:
-                    out.add(v)
+            if isinstance(n, ast.Compare) and src_of(n.left).endswith(var_suffix) and \
+                    isinstance(n.ops[0], (ast.Eq, ast.In)):
+                rhs = n.comparators[0]
+                elts = rhs.elts if isinstance(n.ops[0], ast.In) and isinstance(rhs, (ast.Tuple, ast.List, ast.Set)) \
+                    else ([rhs] if isinstance(n.ops[0], ast.Eq) else [])
+                for e in elts:
+                    v = prog.try_fold(e, fn.module, fn.cls)
+                    if v is None and isinstance(e, ast.Attribute):
+                        try:
+                            v = prog.class_const(cap, e.attr)
+                        except NotConst:
+                            v = None
+                    if v is not None:
+                        out.add(v)
         return out
     enc = branch_codes(cc, 'capa_code')
     dec = set()
